@@ -453,7 +453,7 @@ func init() {
 		if reps < 1 {
 			reps = 1
 		}
-		var first []byte
+		var first, firstCopy []byte
 		allSame, ok := true, true
 		errs := ""
 		for i := 0; i < reps; i++ {
@@ -488,11 +488,27 @@ func init() {
 			b := m.Data()
 			if i == 0 {
 				first = b
+				firstCopy = append([]byte{}, b...)
 			} else if string(b) != string(first) {
 				allSame = false
 			}
 		}
-		r := Res{"ok": ok, "err": errs, "same": allSame, "ser": ints(first)}
+		// the first serialisation is kept by the caller while OTHER mappings (smaller and of other content) are built and serialised
+		keptSame := true
+		if ok {
+			for i := 0; i < 3; i++ {
+				if sm, serr := data.GoMapToMapping(map[string]string{"host": "192.0.2.1", "port": "4567"}); serr == nil && sm != nil {
+					_ = sm.Data()
+				}
+				if i == 0 {
+					if pm, _, _ := data.ReadMapping([]byte{0, 6, 1, 'z', '=', 1, 'y', ';'}); len(pm.Values()) == 1 {
+						_ = pm.Data()
+					}
+				}
+			}
+			keptSame = string(first) == string(firstCopy)
+		}
+		r := Res{"ok": ok, "err": errs, "same": allSame, "ser": ints(firstCopy), "kept_same": keptSame}
 		if ok {
 			m2, rem, perrs := data.ReadMapping(append([]byte{}, first...))
 			back, berr := m2.ToGoMap()
